@@ -148,12 +148,14 @@ pub struct ScriptSink {
     pub fallback: usize,
     pub calls: usize,
     pub fail_at: Option<(usize, ErrorKind)>,
+    /// only the `fail_at`-th call fails; the sink then recovers
+    pub fail_once: bool,
     pub failed: bool,
 }
 
 impl ScriptSink {
     pub fn new(script: Vec<SinkStep>, fallback: usize, fail_at: Option<(usize, ErrorKind)>) -> Self {
-        Self { accepted: vec![], script: script.into(), fallback: fallback.max(1), calls: 0, fail_at, failed: false }
+        Self { accepted: vec![], script: script.into(), fallback: fallback.max(1), calls: 0, fail_at, fail_once: false, failed: false }
     }
     pub fn plain() -> Self {
         Self::new(vec![], usize::MAX, None)
@@ -162,7 +164,7 @@ impl ScriptSink {
         let i = self.calls;
         self.calls += 1;
         if let Some((k, kind)) = self.fail_at {
-            if i >= k {
+            if i == k || (i > k && !self.fail_once) {
                 self.failed = true;
                 return Err(io::Error::new(kind, "scripted sink failure"));
             }
